@@ -101,3 +101,66 @@ def install() -> SimClock:
 def real_time() -> float:
     """Real wall clock, for throughput reporting only (never for decisions)."""
     return _real_time()
+
+
+# ---- step budget: liveness as progress within a bounded number of steps ---------------------------------------------------------------
+
+class StepBudgetExceeded(BaseException):
+    """Raised inside the code under test when one library call has entered more Python functions than its budget.  A BaseException, and
+    raised again at every further function entry, so that no `except Exception` of the code under test can absorb it."""
+
+
+class step_budget:
+    """Counts Python function entries (sys.monitoring PY_START) while active - a deterministic step measure: a function of code and input,
+    not of wall-clock - and raises StepBudgetExceeded beyond `limit`.  `steps` holds the count afterwards."""
+
+    TOOL = 4  # a tool id not used by debuggers / coverage / profilers
+
+    def __init__(self, limit: int) -> None:
+        self.limit = int(limit)
+        self.steps = 0
+        self.exceeded = False
+
+    def __enter__(self):
+        mon = sys.monitoring
+        self._nested = mon.get_tool(self.TOOL) is not None
+        if self._nested:
+            return self
+        mon.use_tool_id(self.TOOL, "verif-step-budget")
+
+        exit_code = step_budget.__exit__.__code__
+
+        def on_start(code, offset):
+            if code is exit_code:
+                return
+            self.steps += 1
+            if self.steps > self.limit:
+                self.exceeded = True
+                raise StepBudgetExceeded("more than %d function entries in one library call" % self.limit)
+
+        mon.register_callback(self.TOOL, mon.events.PY_START, on_start)
+        mon.set_events(self.TOOL, mon.events.PY_START)
+        return self
+
+    def __exit__(self, *exc):
+        if self._nested:
+            return False
+        mon = sys.monitoring
+        mon.set_events(self.TOOL, 0)
+        mon.register_callback(self.TOOL, mon.events.PY_START, None)
+        mon.free_tool_id(self.TOOL)
+        return False
+
+
+def budget_for(data: bytes, per_unit: int = 5000, base: int = 100) -> int:
+    """Step budget for ONE open or save of the package `data`: the unchanged library enters about 150 Python functions per member
+    (measured over the corpus, DESIGN 10.11); the budget allows `per_unit` per member and per relationship plus a constant."""
+    import io
+    import zipfile
+    try:
+        with zipfile.ZipFile(io.BytesIO(data)) as z:
+            n = len(z.namelist())
+            n += sum(z.read(i).count(b"Relationship") for i in z.namelist() if i.endswith(".rels"))
+    except Exception:  # noqa: BLE001
+        n = 0
+    return per_unit * (n + base)
